@@ -117,10 +117,69 @@ mesh_req_independent.cname = 'Reactor._setup_asm_axial_mesh_req'
 mesh_req_independent.run_kw = dict(max_paths=200, check_div=False)
 
 
+def step_per_assembly(S, cfg):
+    """the real Reactor.axial_step with recording assemblies and core (adiabatic: no gap model): every assembly is
+    advanced exactly once with this step's (z, dz) and ITS OWN index, and it enters its next axial region iff ITS OWN
+    check_region_update says so for the next plane - whatever the other assemblies do at that plane, and with its own
+    gap boundary condition."""
+    from dassh import reactor
+    want_update = cfg['update']                 # per assembly: does it change region at the next plane
+    n = len(want_update)
+    log = []
+
+    class Asm:
+        def __init__(self, i):
+            self.i = i
+
+        def check_region_update(self, z):
+            log.append(('check', self.i, z))
+            return want_update[self.i]
+
+        def update_region(self, z, t_gap, h_gap, adiabatic):
+            log.append(('update', self.i, z, t_gap, h_gap, adiabatic))
+
+    class Core:
+        model = None
+
+        def adjacent_coolant_gap_temp(self, i):
+            return ('gap_temp_of', i)
+
+        def adjacent_coolant_gap_htc(self, i):
+            return ('gap_htc_of', i)
+    r = reactor.Reactor.__new__(reactor.Reactor)
+    r.assemblies = [Asm(i) for i in range(n)]
+    r.core = Core()
+    r._is_adiabatic = True
+    z0 = S.pos('z', 0.1, 1.0)
+    dz = S.pos('dz', 0.001, 0.01)
+    r.z = np.array([0 * z0, z0, z0 + dz], dtype=object if S.mode == 'sym' else float)
+    r._determine_whether_to_dump_data = lambda z, dz: False
+    r._calculate_asm_temperatures = lambda asm, ai, z, dz, dump: log.append(('advance', asm.i, ai, z, dz))
+    r.axial_step(z0, dz, 1)
+    for i in range(n):
+        adv = [e for e in log if e[0] == 'advance' and e[1] == i]
+        S.holds(f'step.advanced_once[{i}]', len(adv) == 1 and adv[0][2] == i)
+        if len(adv) == 1:
+            S.eq(f'step.advanced_with_this_step[{i}]', [adv[0][3], adv[0][4]], [z0, dz])
+        upd = [e for e in log if e[0] == 'update' and e[1] == i]
+        S.holds(f'step.region_change_is_the_assembly_s_own_decision[{i}]', len(upd) == (1 if want_update[i] else 0))
+        if upd:
+            S.eq(f'step.region_change_at_next_plane[{i}]', upd[0][2], z0 + dz)
+            S.holds(f'step.region_change_with_own_gap_condition[{i}]',
+                    upd[0][3] == ('gap_temp_of', i) and upd[0][4] == ('gap_htc_of', i) and upd[0][5] is True)
+    S.holds('canary.step_everyone_changes_region', sum(1 for e in log if e[0] == 'update') == n, canary=True)
+
+
+step_per_assembly.cname = 'Reactor.axial_step/per-assembly'
+step_per_assembly.run_kw = dict(check_div=False)
+
+
 def configs(tier):
     return [(mesh_req_independent, dict(codes=['3-22', '1-111', '2-122'])),
             (mesh_req_independent, dict(codes=['6-66', '1-111', '7-66', '1-112'], rodded=[True, True, False, False])),
-            (mesh_req_independent, dict(codes=['3-22', '2-122'], option=False))]
+            (mesh_req_independent, dict(codes=['3-22', '2-122'], option=False)),
+            (step_per_assembly, dict(update=[False, True, False])), (step_per_assembly, dict(update=[True, False, True])),
+            (step_per_assembly, dict(update=[False, False, True, True]))]
 
 
 def _repo():
